@@ -657,7 +657,10 @@ class Quaternion(np.ndarray):
     def __array_finalize__(self, obj):
         if obj is None:
             return
-        self.A = getattr(obj, 'A', np.array([1.0, 0.0, 0.0, 0.0]))
+        if self.shape == (4,) and self.dtype == np.float64:
+            self.A = self.view(np.ndarray)      # The new object's own elements (-q, 2*q, q.copy(), ... do not hold their parent's)
+        else:
+            self.A = getattr(obj, 'A', np.array([1.0, 0.0, 0.0, 0.0]))
         self.scalar_vector = getattr(obj, 'scalar_vector', True)
 
     @property
